@@ -14,6 +14,8 @@
 -/
 import AdaptixModel.Protocol
 import AdaptixModel.Layout.ModelDump
+import AdaptixModel.Layout.LocPred
+import AdaptixModel.Ops.C10
 
 namespace Adaptix.Ops.C03
 open Lean Adaptix.Protocol Adaptix.Layout
@@ -477,8 +479,25 @@ def handleModelDump (j : Json) : Except String Json := do
     let obj ← decObj j
     return encDumpOutcome (dumpModel cfg l.crown obj)
 
+/-- `apply_lsc` for every (checker, field) of a layout request located at `req`:
+    {"op":"lsc_filter","world":World (encoding of the C10 driver),"req":[Loc..],"dir":"inp"|"out",
+     "fields":[{"id","t"}..],"checkers":[Checker..]}  →  one string per checker, one outcome char per field
+    ('T' / 'F' / exception) -/
+def handleLscFilter (j : Json) : Except String Json := do
+  let w ← Adaptix.Ops.C10.decWorld (← field j "world")
+  let req ← Adaptix.Ops.C10.decStack (← field j "req")
+  let dir ← match ← fieldStr j "dir" with
+    | "inp" => pure Dir.inp
+    | "out" => pure Dir.out
+    | d => throw s!"bad dir {d}"
+  let flds ← (← fieldArr j "fields").mapM fun f => do pure ((← fieldStr f "id"), (← fieldNat f "t"))
+  let cs ← (← fieldArr j "checkers").mapM Adaptix.Ops.C10.decChecker
+  return listJ (cs.map fun c => Json.str (String.ofList (flds.map fun (id, t) =>
+    Adaptix.Ops.C10.outcomeChar (applyLsc w req c (fieldToLoc dir id t)))))
+
 def handle : Protocol.Handler := fun j => do
   match ← fieldStr j "op" with
+  | "lsc_filter" => handleLscFilter j
   | "layout" => handleLayout j
   | "path_of" => handlePathOf j
   | "load" => handleLoad j
